@@ -204,6 +204,60 @@ pub fn run(desc: &Value, ctx: &Ctx) -> CaseOut {
                 }
             }
         }
+        // 5. extra content packs stored in ANOTHER directory than the container (recorded location is a relative path with ..)
+        if !base.extra.is_empty() {
+            for pkg in [Pkg::OneFile, Pkg::TwoFiles] {
+                let mut case = base.clone();
+                case.pkg = pkg;
+                let root = scratch.path(&format!("outside-{}", pkg.as_str()));
+                let adir = root.join("archive");
+                std::fs::create_dir_all(&adir).unwrap();
+                match create_container_ex(&case, &adir, "c.jbk", &root.join("pool"), Arc::new(())) {
+                    Ok(created) => {
+                        judge!("extras-in-another-directory", &created.path, &case, &created);
+                    }
+                    Err(e) => out.violate(json!({"kind": "create-error", "scenario": "extras-in-another-directory", "message": util::normalize_msg(&e), "profile": profile()}), format!("C10: creating a container with extra packs in another directory failed: {e}"), json!({})),
+                }
+            }
+        }
+        // 6. all the content pack files merged by tools::concat into ONE file, found at each recorded location
+        //    (the wanted pack is not necessarily the first one of that file: identity is the uuid)
+        if let Some((case, created)) = &twofiles {
+            if !case.extra.is_empty() {
+                let dir = scratch.path("merged-contents");
+                let all: Vec<PathBuf> = created.files.clone();
+                let content_files: Vec<PathBuf> = all.iter().filter(|f| f.extension().map(|e| e == "jbkc").unwrap_or(false)).cloned().collect();
+                let others: Vec<PathBuf> = all.iter().filter(|f| !content_files.contains(f)).cloned().collect();
+                copy_into(&others, &dir);
+                let mut inputs = content_files.clone();
+                rng.shuffle(&mut inputs);
+                // extras first more often than not
+                if inputs.first().map(|f| f.file_name().unwrap().to_string_lossy().starts_with("c.")).unwrap_or(false) {
+                    inputs.rotate_left(1);
+                }
+                let merged = camino::Utf8PathBuf::from_path_buf(dir.join("merged.tmp")).unwrap();
+                if let Ok(Ok(())) = util::catch(|| jbk::tools::concat(&inputs, &merged)) {
+                    for f in &content_files {
+                        std::fs::copy(merged.as_std_path(), dir.join(f.file_name().unwrap())).unwrap();
+                    }
+                    let _ = std::fs::remove_file(merged.as_std_path());
+                    let plan = plan_for(case, Some(created));
+                    let mut got = dump_container(&dir.join("c.jbk"), &plan);
+                    got.retain(|k, _| !k.starts_with("check/file/"));
+                    let exp = expected_dump(case, created, &plan);
+                    let diffs = diff(&exp, &got, keep_all);
+                    scenarios += 1;
+                    out.obs.inc("scenario.merged-content-files");
+                    if !diffs.is_empty() {
+                        out.violate(
+                            json!({"kind": "packaging", "scenario": "merged-content-files", "item": diffs[0].split(':').next().unwrap_or("").split('/').next().unwrap_or(""), "profile": profile()}),
+                            format!("C10: content pack files merged into one file found at every recorded location: {} item(s) differ; first: {}", diffs.len(), diffs[0]),
+                            json!({"diffs": diffs.iter().take(5).collect::<Vec<_>>()}),
+                        );
+                    }
+                }
+            }
+        }
         // 4. lookup order: the pack inside the file at hand wins over a decoy at the recorded location
         if let (Some((case, created)), Some((_, other))) = (&twofiles, &noconcat) {
             let dir = scratch.path("decoy");
